@@ -65,8 +65,14 @@ Theorem C14_module_footprint_refuted_seq_select :
   exists n x k, ~ List.In k (out_keys n) /\ top_regular n = true /\ ~ footprint_statement n x None k.
 Proof. exact footprint_refuted_seq_select. Qed.
 Print Assumptions C14_module_footprint_refuted_seq_select.
-(* on the complement — no select_out_keys on a sequence; leaf modules may select (D9 / D141 repaired); sibling keys below a
-   nested node are fine (D143 repaired), only a key that is the bare name of another key's node is excluded — for EVERY
+(* ... and another way (D143, kept: the test-suite pins it): update(keys_to_update) copies sibling leaves of a nested
+   out key into a tensordict_out that lacks the node *)
+Theorem C14_module_footprint_refuted_tout :
+  exists n x ot k, ~ List.In k (out_keys n) /\ noseqsel n = true /\ ~ footprint_statement n x (Some ot) k.
+Proof. exact footprint_refuted_tout. Qed.
+Print Assumptions C14_module_footprint_refuted_tout.
+(* on the complement — no select_out_keys on a sequence; leaf modules may select (D9 / D141 repaired); no two distinct
+   keys sharing their first component (the D143 region) — for EVERY
    graph (any inplace modes at any level, partial_tolerant, nesting), every input, with or without tensordict_out *)
 Theorem C14_module_footprint_partial : forall U n x o, sibling_ok U -> noseqsel n = true -> buildable n = true ->
   (forall k, List.In k (all_outs n) -> List.In k U) -> within U x ->
@@ -145,19 +151,16 @@ Example C14_ex_run : fwd ex_graph [(ka, In ka)] None
   = Done [(ka, In ka)] None
          (RFresh [(kc, App 3 0 [App 2 0 [App 1 0 [In ka]; In ka]])]).
 Proof. reflexivity. Qed.
-Example C14_ex_footprint_hyp : sibling_ok [ka; knx; kny]
-  /\ noseqsel (Seq dcfg [Leaf (mksel 1 [ka] [knx; kny] [kny])]) = true
-  /\ buildable (Seq dcfg [Leaf (mksel 1 [ka] [knx; kny] [kny])]) = true.
+Example C14_ex_footprint_hyp : sibling_ok [ka; kb; knx]
+  /\ noseqsel (Seq dcfg [Leaf (mksel 1 [ka] [kb; knx] [knx])]) = true
+  /\ buildable (Seq dcfg [Leaf (mksel 1 [ka] [kb; knx] [knx])]) = true.
 Proof.
   split; [|split; reflexivity]. intros k k' H1 H2 E.
-  cbn in H1, H2. destruct H1 as [<-|[<-|[<-|[]]]], H2 as [<-|[<-|[<-|[]]]]; cbn in E; try discriminate;
-    solve [now left | right; split; reflexivity].
+  cbn in H1, H2. destruct H1 as [<-|[<-|[<-|[]]]], H2 as [<-|[<-|[<-|[]]]]; cbn in E; try reflexivity; discriminate.
 Qed.
-(* the former witnesses of D9, D141, D143, D144 under the repaired behaviour *)
+(* the former witnesses of D9 and D144 under the repaired behaviour *)
 Example C14_ex_D9_repaired : fwd d9_node d9_x None = Done [(ka, In ka); (kz, In kz); (kc, App 1 1 [In ka])] None RIn.
 Proof. exact footprint_D9_repaired. Qed.
-Example C14_ex_D143_repaired : oa (fwd d143_node d143_x (Some [])) = Some [(knx, App 1 0 [In ka])].
-Proof. exact footprint_D143_repaired. Qed.
 Example C14_ex_D144_repaired : select_sub (depth d144_node + 1) d144_node None (Some [kd])
   = SOk (Seq dcfg [Seq (default_cfg true) [Seq dcfg [Leaf (mk 2 [ka] [kb])]; Leaf (mk 3 [kb] [kd])]]).
 Proof. exact subsequence_D144_repaired. Qed.
